@@ -10,6 +10,8 @@ import (
 	"math/big"
 	"strconv"
 	"strings"
+
+	"cvh/lib"
 )
 
 type kind int
@@ -306,12 +308,9 @@ func idsOf(k kind, n *node) ([]*big.Int, bool) {
 
 // ---------------------------------------------------------------- Coq rendering
 
-func zc(z *big.Int) string {
-	if z.Sign() < 0 {
-		return "(" + z.String() + ")"
-	}
-	return z.String()
-}
+// integers wider than 192 bits are written as limbs (zl, Base/Prelude.v): Coq parses huge
+// decimal literals very slowly
+func zc(z *big.Int) string { return lib.Z(z) }
 
 func zlist(ids []*big.Int) string {
 	parts := make([]string, len(ids))
